@@ -7,10 +7,10 @@ from .internal import value_properties as _value_properties
 
 
 def _splitlines(s: str) -> list[str]:
-    lines = s.splitlines(keepends=True)
-    if not lines or lines[-1].endswith('\n'):
-        lines.append('')
-    return lines
+    # Only '\n' ends a line of a block comment (_NEWLINE is /\r*\n/). str.splitlines() would also split at
+    # \r, \v, \f, \x1c-\x1e, \x85, \u2028 and \u2029, which are ordinary comment characters for the lexer.
+    lines = s.split('\n')
+    return [line + '\n' for line in lines[:-1]] + lines[-1:]
 
 
 @_registry.token_model
